@@ -47,6 +47,19 @@ def check_one(src: str, mode: str, variant: str = "shipped"):
     diffs = impl.ast_diff(tree, ref)
     if not diffs:
         return None
+    # known class: a line that holds nothing but a continuation backslash (its indentation rule is CPython's own: KF-C02-backslash-only-line)
+    import re as _re
+
+    if _re.search(r"(^|\n)[ \t\f]*\\\r?\n[ \t\f]", src):
+        return {"kind": "diff", "class": "backslash-only-line", "diffs": diffs[:3]}
+    # known class: identifiers are not NFKC-normalised (CPython normalises every identifier)
+    if not src.isascii():
+        import unicodedata as _ud
+
+        ref3 = impl.byte_cols_to_char_cols(ast.parse(src, mode="exec" if mode == "exec" else "eval"), src)
+        d3 = impl.ast_diff(tree, ref3)
+        if d3 and all(len(d) == 3 and isinstance(d[1], str) and isinstance(d[2], str) and _ud.normalize("NFKC", d[1]) == d[2] and d[1] != d[2] for d in d3):
+            return {"kind": "diff", "class": "nfkc-identifier", "diffs": diffs[:3]}
     # known class: character vs UTF-8 byte columns
     if not src.isascii():
         ref2 = impl.byte_cols_to_char_cols(ast.parse(src, mode="exec" if mode == "exec" else "eval"), src)
@@ -92,6 +105,8 @@ def build_inputs(tier: str):
         cases.append((f"indent{i}", s, "exec", ["indent"]))  # blanks, tabs and form feeds in the indentation
     for i, s in enumerate(corpus.string_mixes() + corpus.pattern_spellings()):
         cases.append((f"mix{i}", s, "exec", ["source-form"]))
+    for i, s in enumerate(["if a:\n  b\n\\\n  c\n", "def f():\n    x = 1\n\\\n    return x\n", "\u210c = 1\n", "x = \ufb01le\n", "def \u2102(\u2115): return \u2115\n", "import \u1d2c as \uff42\n"]):
+        cases.append((f"kfwitness{i}", s, "exec", ["kf-neighbourhood"]))
     for i, s in enumerate(corpus.FINAL_LINE_FORMS):
         cases.append((f"finalline{i}", s, "exec", ["final-line"]))
     for i, s in enumerate(corpus.PY_EXPRS):
@@ -145,6 +160,12 @@ def run(rep, tier, pool, variants=("shipped",)):
             rep.case(ident, True)
             if out.get("k") in ("hang", "crash", "worker-exc", "not-run"):
                 rep.violation(f"C01 {out.get('k')} on {short(src, 80)}", {"property": "C01", "input": src, "mode": mode, "observed": out, "variant": variant})
+                continue
+            if out.get("class") == "backslash-only-line":
+                rep.known("KF-C01-backslash-only-line", "a line holding only a continuation backslash does not pass its indentation on (first seen: " + short(src, 60) + ")")
+                continue
+            if out.get("class") == "nfkc-identifier":
+                rep.known("KF-C01-nfkc-identifier", "identifiers are not NFKC-normalised (first seen: " + short(src, 60) + ")")
                 continue
             if out.get("class") == "nonascii-columns":
                 rep.known("KF-C01-nonascii-columns", "AST columns are characters, CPython's are UTF-8 bytes (first seen: " + short(src, 60) + ")")
